@@ -229,7 +229,46 @@ pub fn miri_cmd(verif: &str, miriflags: &str, count: u64, sim: &str) -> Command 
 pub const MIRI_BASE_FLAGS: &str = "-Zmiri-disable-stacked-borrows";
 
 /// Second engine: the same scenario shapes under Miri, many seeds (run in parallel by Miri).
+/// The Miri engine: the seed range is cut into small chunks that run as separate interpreter processes, up
+/// to 16 at a time (one process with `-Zmiri-many-seeds` over many seeds does not scale: 32 seeds took
+/// 207 s in one process and 30 s in sixteen). Stops handing out chunks after the first failure.
 fn miri_engine(verif: &str, sim: &str, first_seed: u64, seeds: u64, count: u64, max_secs: u64) -> MiriOutcome {
+    let t0 = Instant::now();
+    let chunk = if seeds <= 32 { 2 } else { 4 };
+    let chunks: Vec<(u64, u64)> = (0..seeds).step_by(chunk as usize).map(|o| (first_seed + o, chunk.min(seeds - o))).collect();
+    let next = std::sync::atomic::AtomicUsize::new(0);
+    let failed = std::sync::atomic::AtomicBool::new(false);
+    let results: std::sync::Mutex<Vec<MiriOutcome>> = std::sync::Mutex::new(Vec::new());
+    std::thread::scope(|sc| {
+        for _ in 0..16.min(chunks.len()) {
+            sc.spawn(|| loop {
+                let k = next.fetch_add(1, std::sync::atomic::Ordering::SeqCst);
+                if k >= chunks.len() || failed.load(std::sync::atomic::Ordering::SeqCst) {
+                    return;
+                }
+                let left = max_secs.saturating_sub(t0.elapsed().as_secs()).max(1);
+                let o = miri_engine_one(verif, sim, chunks[k].0, chunks[k].1, count, left);
+                if o.harness_error.is_some() || !o.error_excerpt.is_empty() {
+                    failed.store(true, std::sync::atomic::Ordering::SeqCst);
+                }
+                results.lock().unwrap_or_else(|e| e.into_inner()).push(o);
+            });
+        }
+    });
+    let mut all = results.into_inner().unwrap_or_else(|e| e.into_inner());
+    all.sort_by_key(|o| o.first_seed);
+    let mut o = MiriOutcome { seeds, first_seed, scenarios_ok: all.iter().map(|x| x.scenarios_ok).sum(), wall_s: 0.0, failing_seed: None, error_excerpt: vec![], harness_error: None };
+    if let Some(bad) = all.iter().find(|x| !x.error_excerpt.is_empty()) {
+        o.failing_seed = bad.failing_seed.or(Some(bad.first_seed));
+        o.error_excerpt = bad.error_excerpt.clone();
+    } else if let Some(bad) = all.iter().find(|x| x.harness_error.is_some()) {
+        o.harness_error = bad.harness_error.clone();
+    }
+    o.wall_s = t0.elapsed().as_secs_f64();
+    o
+}
+
+fn miri_engine_one(verif: &str, sim: &str, first_seed: u64, seeds: u64, count: u64, max_secs: u64) -> MiriOutcome {
     let t0 = Instant::now();
     let flags = format!("{} -Zmiri-many-seeds={}..{}", MIRI_BASE_FLAGS, first_seed, first_seed + seeds);
     // watchdog: the interpreter must not be able to hang the check
@@ -489,11 +528,11 @@ pub fn main(args: &[String]) -> i32 {
     let mut miri_json = serde_json::Value::Null;
     // (sim, quick seeds, quick scenarios per seed, thorough seeds, thorough scenarios per seed)
     let miri_plan: Option<(&str, u64, u64, u64, u64)> = match prop.as_str() {
-        "C18" => Some(("cache", 32, 6, 384, 8)),
-        "C13" => Some(("lazy", 8, 3, 96, 6)),
-        "C05" => Some(("io", 8, 4, 48, 8)),
-        "C16" => Some(("arena", 12, 2, 128, 3)),
-        "C15" => Some(("dom", 0, 0, 32, 3)), // thorough tier only: a dom history takes Miri ~15 s
+        "C18" => Some(("cache", 64, 6, 1024, 8)),
+        "C13" => Some(("lazy", 16, 3, 192, 6)),
+        "C05" => Some(("io", 16, 4, 96, 8)),
+        "C16" => Some(("arena", 24, 2, 256, 3)),
+        "C15" => Some(("dom", 16, 1, 96, 3)),
         _ => None,
     };
     if let (Some((msim, qs, qc, ts, tc)), false) = (miri_plan, args.iter().any(|a| a == "--no-miri")) {
